@@ -8,7 +8,7 @@ CONSTANTS
   ReplyShapes = {}
   EventShapes = {}
   EvNames = {"EVA", "EVB"}
-  Listeners = {"ok1", "ok2", "self", "other", "raise", "adder", "late"}
+  Listeners = {"ok1", "ok2", "self", "other", "raise", "adder", "late", "killer"}
   SubmitKinds = {}
   Loose = TRUE
   Dev = {}
